@@ -40,6 +40,10 @@ def main() -> int:
         mod = importlib.import_module(f"rules.{a.prop}")
         ctx = Ctx(program, Resolver(program), check, a.tier)
         mod.run(ctx)
+        if a.tier == "thorough" and not a.src and not a.no_evidence:
+            sys.path.insert(0, os.path.join(HERE, "selftest"))
+            from sensitivity import measure
+            measure(check, a.prop)
         rc = check.finish()
         if a.replay and rc == 0:
             print(f"replay: construct {check.only_key} no longer violates the rule on the current tree")
